@@ -2,9 +2,11 @@ package sa
 
 import (
 	"fmt"
+	"go/constant"
 	"go/token"
 	"go/types"
 	"os"
+	"sort"
 	"strings"
 
 	"golang.org/x/tools/go/ssa"
@@ -32,6 +34,8 @@ type Prover struct {
 	invBusy map[*ssa.Function]bool
 	nextCtx int
 	Queries int
+
+	roMemo map[*ssa.Function]int // read-only functions: 1 in progress, 2 yes, 3 no
 }
 
 func (c *Ctx) NewProver() *Prover {
@@ -906,7 +910,207 @@ func (fc *factCtx) cond(cd Cond) {
 			if cd.True {
 				fc.le(leExpr(fc.lexpr(v.Call.Args[1]), fc.lexpr(v.Call.Args[0])))
 			}
+			return
 		}
+		// a read-only module predicate: what its own branches establish on the paths that return this answer
+		if callee := v.Call.StaticCallee(); callee != nil && !v.Call.IsInvoke() && fc.p.c.InModuleFn(callee) && fc.p.readOnlyFn(callee) {
+			if res := callee.Signature.Results(); res.Len() == 1 {
+				if b, ok := res.At(0).Type().Underlying().(*types.Basic); ok && b.Kind() == types.Bool {
+					fc.predicate(callee, v, cd.True)
+				}
+			}
+		}
+	}
+}
+
+// readOnlyFn: fn (and everything it calls) performs no store, map update,
+// send, go or closure creation and calls only builtins, pure externals,
+// logging and other read-only module functions.
+func (p *Prover) readOnlyFn(fn *ssa.Function) bool {
+	if p.roMemo == nil {
+		p.roMemo = map[*ssa.Function]int{}
+	}
+	switch p.roMemo[fn] {
+	case 2:
+		return true
+	case 1, 3: // recursion is not analysed: conservatively not read-only
+		return false
+	}
+	p.roMemo[fn] = 1
+	ok := len(fn.Blocks) > 0
+	funcInstrs(fn, func(in ssa.Instruction) {
+		switch t := in.(type) {
+		case *ssa.Store:
+			// stores to the function's own non-escaping cells are invisible outside
+			if al, isAl := t.Addr.(*ssa.Alloc); isAl && !isStructAlloc(al) && !al.Heap {
+				return
+			}
+			ok = false
+		case *ssa.MapUpdate, *ssa.Send, *ssa.Go, *ssa.MakeClosure, *ssa.Defer, *ssa.Panic:
+			ok = false
+		case *ssa.Call:
+			if _, isB := t.Call.Value.(*ssa.Builtin); isB {
+				if n := t.Call.Value.(*ssa.Builtin).Name(); n == "copy" || n == "delete" || n == "close" || n == "append" {
+					ok = false
+				}
+				return
+			}
+			name := calleeName(&t.Call)
+			if isPureExternal(name) || strings.HasPrefix(name, modPath+"/logging.") {
+				return
+			}
+			if callee := t.Call.StaticCallee(); callee != nil && !t.Call.IsInvoke() && p.c.InModuleFn(callee) && p.readOnlyFn(callee) {
+				return
+			}
+			ok = false
+		}
+	})
+	if ok {
+		p.roMemo[fn] = 2
+	} else {
+		p.roMemo[fn] = 3
+	}
+	return ok
+}
+
+// truthPaths: the lists of branch conditions under which the boolean v has
+// the value want (a disjunction of conjunctions).
+func truthPaths(v ssa.Value, want bool, depth int) [][]Cond {
+	if depth > 6 {
+		return [][]Cond{{{V: v, True: want}}}
+	}
+	switch t := v.(type) {
+	case *ssa.Const:
+		if t.Value != nil && t.Value.Kind() == constant.Bool {
+			if constant.BoolVal(t.Value) == want {
+				return [][]Cond{{}}
+			}
+			return nil
+		}
+	case *ssa.UnOp:
+		if t.Op == token.NOT {
+			return truthPaths(t.X, !want, depth+1)
+		}
+	case *ssa.Phi:
+		var out [][]Cond
+		for i, e := range t.Edges {
+			pred := t.Block().Preds[i]
+			cds := append([]Cond{}, CondsAt(pred)...)
+			if cd, ok := edgeCond(pred, t.Block()); ok {
+				cds = append(cds, cd)
+			}
+			for _, path := range truthPaths(e, want, depth+1) {
+				out = append(out, append(append([]Cond{}, cds...), path...))
+			}
+		}
+		return out
+	}
+	return [][]Cond{{{V: v, True: want}}}
+}
+
+// predicate adds, as one disjunction, what the read-only boolean function
+// callee establishes on each of its paths that return want, with its
+// parameters bound to the arguments and its loads of fields of pointer
+// parameters identified with the caller's loads of the same locations.
+func (fc *factCtx) predicate(callee *ssa.Function, call *ssa.Call, want bool) {
+	if fc.openFns[callee] || fc.depth > 6 || call.Parent() == nil {
+		return
+	}
+	fc.openFns[callee] = true
+	defer delete(fc.openFns, callee)
+	for i, a := range call.Call.Args {
+		if i >= len(callee.Params) {
+			break
+		}
+		pr := callee.Params[i]
+		switch {
+		case isIntType(pr.Type()):
+			fc.eq(sub(newLin().add(fc.p.varOf(intTerm{pr, 0}, pr.Name()), 1), fc.iexpr(a)))
+			fc.done[intTerm{pr, 0}] = true
+		case hasLen(pr.Type()):
+			lv := newLin().add(fc.p.varOf(lenTerm{pr, 0}, "len("+pr.Name()+")"), 1)
+			fc.eq(sub(lv, fc.lexpr(a)))
+			fc.le(leExpr(constLin(0), lv))
+			fc.done[lenTerm{pr, 0}] = true
+		}
+	}
+	// memory: callee loads of param.field == caller loads of arg.field with nothing modifying in between
+	cm, km := fc.p.memOf(callee), fc.p.memOf(call.Parent())
+	var cloads []*ssa.UnOp
+	for u := range cm.key {
+		if cm.rep[u] == nil {
+			cloads = append(cloads, u)
+		}
+	}
+	sort.Slice(cloads, func(i, j int) bool { return cloads[i].Pos() < cloads[j].Pos() })
+	var kloads []*ssa.UnOp
+	for u := range km.key {
+		kloads = append(kloads, u)
+	}
+	sort.Slice(kloads, func(i, j int) bool { return kloads[i].Pos() < kloads[j].Pos() })
+	for _, u := range cloads {
+		k := cm.key[u]
+		ai := cm.info[k]
+		if ai == nil || ai.field == nil || ai.isIndex {
+			continue
+		}
+		pr, ok := ai.root.(*ssa.Parameter)
+		if !ok || k != "p:"+pr.Name()+"."+ai.field.Name() {
+			continue
+		}
+		idx := -1
+		for i, q := range callee.Params {
+			if q == pr {
+				idx = i
+			}
+		}
+		if idx < 0 || idx >= len(call.Call.Args) {
+			continue
+		}
+		bk, _ := km.ptrKey(call.Call.Args[idx])
+		if bk == "" {
+			continue
+		}
+		ck := bk + "." + ai.field.Name()
+		for _, L := range kloads {
+			if km.key[L] != ck {
+				continue
+			}
+			same := false
+			if km.reachFrom(call)[L] && !km.clobbered(fc.p, call, L, ck) {
+				same = true
+			} else if km.reachFrom(L)[call] && !km.clobbered(fc.p, L, call, ck) {
+				same = true
+			}
+			if !same {
+				continue
+			}
+			switch {
+			case hasLen(u.Type()):
+				fc.eq(sub(fc.lexpr(u), fc.lexpr(L)))
+			case isIntType(u.Type()):
+				fc.eq(sub(fc.iexpr(u), fc.iexpr(L)))
+			}
+		}
+	}
+	var cl Clause
+	funcInstrs(callee, func(in ssa.Instruction) {
+		rt, ok := in.(*ssa.Return)
+		if !ok || len(rt.Results) != 1 {
+			return
+		}
+		for _, path := range truthPaths(retVal(rt, 0), want, 0) {
+			sc := fc.child()
+			sc.staleHdr = nil
+			sc.condsAt(rt.Block())
+			for _, cd := range path {
+				sc.cond(cd)
+			}
+			cl = append(cl, sc.flatten(48)...)
+		}
+	})
+	if len(cl) > 0 && len(cl) <= 160 {
+		fc.or(cl)
 	}
 }
 
